@@ -188,7 +188,8 @@ fn ren_onst_nrb(balance_cr: &HashMap<Carrier, BalanceCarrier>, k_exp: f32) -> (f
         })
         .unwrap_or(0.0);
     // Exported cogenerated electricity: only the share of the cogeneration input
-    // that has been counted as nearby (nearby carriers in 1. and electricity in 3.)
+    // that has been counted in each perimeter (onsite carriers in 1. for the onsite one,
+    // nearby carriers in 1. and electricity in 3. for the nearby one)
     let ren_cgn_in = balance_cr
         .values()
         .map(|bal| bal.we.del_cgn.ren)
@@ -198,15 +199,24 @@ fn ren_onst_nrb(balance_cr: &HashMap<Carrier, BalanceCarrier>, k_exp: f32) -> (f
         .filter(|(carrier, _)| carrier.is_nearby() || **carrier == Carrier::ELECTRICIDAD)
         .map(|(_, bal)| bal.we.del_cgn.ren)
         .sum::<f32>();
-    let ren_el_exp_a_cgn_nrb = if ren_cgn_in > 0.0 {
-        (ren_el_exp_a - ren_el_exp_a_onst) * ren_cgn_in_nrb / ren_cgn_in
+    let ren_cgn_in_onst = balance_cr
+        .iter()
+        .filter(|(carrier, _)| carrier.is_onsite())
+        .map(|(_, bal)| bal.we.del_cgn.ren)
+        .sum::<f32>();
+    let (ren_el_exp_a_cgn_onst, ren_el_exp_a_cgn_nrb) = if ren_cgn_in > 0.0 {
+        (
+            (ren_el_exp_a - ren_el_exp_a_onst) * ren_cgn_in_onst / ren_cgn_in,
+            (ren_el_exp_a - ren_el_exp_a_onst) * ren_cgn_in_nrb / ren_cgn_in,
+        )
     } else {
-        0.0
+        (0.0, 0.0)
     };
     // 5. Add all contributions
     (
         // Onsite
-        ren_onst_cr + ren_el_onst - (1.0 - k_exp) * ren_el_exp_a_onst,
+        ren_onst_cr + ren_el_onst
+            - (1.0 - k_exp) * (ren_el_exp_a_onst + ren_el_exp_a_cgn_onst),
         // Nearby
         ren_nrb_cr + ren_el_onst + ren_el_cgn
             - (1.0 - k_exp) * (ren_el_exp_a_onst + ren_el_exp_a_cgn_nrb),
